@@ -316,11 +316,10 @@ def _c11():
     seq('mspq_seq_cap1_n6', 2, 6)
     co('mspq_push_push_T2_n1_K4', 0, 2, 4, 1, tiers=('thorough',), timeout=3000)
     co('mspq_pop_pop_T2_n1_K4', 1, 2, 4, 1, tiers=('thorough',), timeout=3000)
-    co('mspq_mixed_T2_n1_K4', 2, 2, 4, 1, tiers=('thorough',), timeout=3000)
     return qs
 CHECKS['C11'] = {
     'queries': _c11(), 'level': 'model_checking',
-    'outside': ['FCPriorityQueue (flat-combining kernel not encoded)', 'heap capacities above 7 items; more than 6 calls per sequential script; more than 3 threads',
+    'outside': ['FCPriorityQueue (flat-combining kernel not encoded)', 'push overlapping pop (the mixed query gave no verdict in 50 min): concurrent claims are push||push and pop||pop only', 'heap capacities above 7 items; more than 6 calls per sequential script; more than 3 threads',
                 'sequential consistency only; schedules with more than K-1 context switches; node spin-locks: more than 2 failed acquisition attempts per lock() are cut by assume (stutter-equivalent for safety)'],
     'assumptions': ['context switches only immediately before atomic operations (DRF-SC)', 'pthread_self() is the harness thread number (heap node tags)'],
 }
